@@ -97,6 +97,9 @@ def resolve_names(node):
     elif isinstance(node, ast.Nonlocal):
         for name in node.names:
             get_binding_disallow_class_namespace_rename(name, node.namespace).add_reference(node)
+    elif isinstance(node, ast.Global):
+        for name in node.names:
+            get_binding(name, get_global_namespace(node)).add_reference(node)
     elif isinstance(node, (ast.MatchAs, ast.MatchStar)) and node.name in node.namespace.nonlocal_names:
         get_binding_disallow_class_namespace_rename(node.name, node.namespace).add_reference(node)
     elif isinstance(node, ast.MatchMapping) and node.rest in node.namespace.nonlocal_names:
